@@ -22,6 +22,8 @@ CLAIMED = {
          'Decides the structural causes of the three named stalls: every resource change (ACK, segment push, SYN-ACK, accept registration, queued SYN) reaches the waiter dispatch in every abstract state where the resource became available; every end of flight subtracts and erases; every (re)transmission carries an armed drop callback. Eventual delivery is not decided.', '4/C06'),
  'C07': ('static: reader table for the true-endpoint field, value-origin checks on both user-visible peer views, CFG path rules on the refusal path, mutation-kind table for the accept queue',
          'Decides that both user-visible views of the peer read channel::visible_ep, that refusal drops the channel and completes through a positively armed timer, that a channel is created only for a listening registered acceptor, that the accept queue is strictly FIFO and that close(ec) ends listening. Pairing under all schedules is not decided.', '4/C07'),
+ 'C08': ('static: field-coverage of udp close() by reset dataflow, byte-account pairing with linear normal forms, CFG dominance rules for send validation and route resolution',
+         'Decides that close() discards all per-binding state including the forwarder in-flight packets point at, that the receive-buffer account is exact at enqueue/shrink/removal, that one receive consumes exactly the front datagram and reports its sender, and that send_to validates before anything reaches capture or wire and resolves the route in the same call. At-most-once, ordering and right-socket over histories are not decided.', '4/C08'),
 }
 
 NOT_YET = {}
